@@ -154,7 +154,7 @@ def execute(pack, fc, hist, seed, pid=PID, ch=None, fixed=None, enc="direct"):
     mode, so, fr, arc = fc["mode"], fc["so"], fc["fr"], fc["arc"]
     acked = mode in ACKED
     arity = (3 if acked else 2) if fc["listen"] else 1
-    los = Losses(ra, arity, enc, ch, fixed, total_attempts(fc, hist) + 2)
+    los = Losses(ra, arity, enc, ch, fixed, total_attempts(fc, hist))
     w.fault = los
     bounds = []
     for i, kind in enumerate(hist):
